@@ -255,16 +255,19 @@ Section Sound.
     inversion H; subst. eexists; split; [reflexivity|]. now apply pick_Forall2.
   Qed.
 
-  Theorem seq_slice_crash_iff : forall (ms : members T) s l,
+  (* for fixed members the generic fallback is taken exactly for a step of 0, where CPython
+     raises ValueError: no diagnostic, no internal error *)
+  Theorem seq_slice_step_zero_generic : forall (ms : members T) s l,
     member_sequence ms = Some l ->
-    (seq_getitem_slice ms s = SCrash <-> sl_step s = Some 0).
+    (seq_getitem_slice ms s = SGeneric <-> sl_step s = Some 0) /\
+    (sl_step s = Some 0 <-> py_slice l s = None).
   Proof.
     intros ms s l EM. unfold seq_getitem_slice, py_slice, slice_indices. rewrite EM.
     destruct (sl_step s) as [st|]; cbn.
     - destruct (st =? 0) eqn:E; cbn.
-      + apply Z.eqb_eq in E. subst. split; reflexivity.
-      + apply Z.eqb_neq in E. split; [discriminate|]. intros H; inversion H; contradiction.
-    - split; discriminate.
+      + apply Z.eqb_eq in E. subst. repeat split; reflexivity.
+      + apply Z.eqb_neq in E. repeat split; try discriminate; intros H; inversion H; contradiction.
+    - repeat split; discriminate.
   Qed.
 End Sound.
 
